@@ -25,6 +25,7 @@ use std::collections::BTreeMap;
 use std::future::Future;
 use std::io::{Error as IoError, ErrorKind, Result as IoResult};
 use std::pin::Pin;
+use std::sync::atomic::{AtomicU8, Ordering};
 use std::sync::{Arc, Mutex};
 use std::task::{Context, Poll};
 
@@ -131,6 +132,9 @@ struct Inner {
 #[derive(Clone)]
 pub struct TraceObjectStore {
     inner: Arc<Mutex<Inner>>,
+    /// index into ERROR_KINDS of the kind injected failures carry (outside the mutex: read
+    /// while the inner lock is held)
+    err_kind: Arc<AtomicU8>,
 }
 
 /// Suspends exactly once (wakes itself so that an ordinary executor would also make progress).
@@ -153,8 +157,25 @@ fn fails(f: Option<Fault>) -> bool {
     matches!(f, Some(Fault::Fail) | Some(Fault::PartialThenFail(_)) | Some(Fault::EffectThenFail))
 }
 
-fn injected(op: &str, idx: usize) -> IoError {
-    IoError::new(ErrorKind::Other, format!("injected {} failure at call {}", op, idx))
+/// The `ErrorKind`s an injected failure may carry (`set_error_kind(code)`, code = index).
+/// `NotFound` is deliberately absent: for this API it is not a transient failure but an ANSWER
+/// ("the object does not exist") that `load_or_create` and `compact()` are documented to act
+/// on; a store that gives it for an existing object is lying, not failing. Truthful NotFound
+/// answers (a rename whose source another writer has moved away) arise in the interleaving tier.
+pub const ERROR_KINDS: &[(ErrorKind, &str)] = &[
+    (ErrorKind::Other, "other"),
+    (ErrorKind::TimedOut, "timed_out"),
+    (ErrorKind::Interrupted, "interrupted"),
+    (ErrorKind::ConnectionReset, "connection_reset"),
+    (ErrorKind::PermissionDenied, "permission_denied"),
+    (ErrorKind::UnexpectedEof, "unexpected_eof"),
+    (ErrorKind::WouldBlock, "would_block"),
+    (ErrorKind::AlreadyExists, "already_exists"),
+    (ErrorKind::InvalidData, "invalid_data"),
+];
+
+pub fn error_kind(code: u8) -> (ErrorKind, &'static str) {
+    ERROR_KINDS[(code as usize).min(ERROR_KINDS.len() - 1)]
 }
 
 impl Default for TraceObjectStore {
@@ -182,7 +203,19 @@ impl TraceObjectStore {
                 gated: false,
                 task: 0,
             })),
+            err_kind: Arc::new(AtomicU8::new(0)),
         }
+    }
+
+    /// `ErrorKind` of every injected failure from now on (index into `ERROR_KINDS`; default
+    /// `Other`, as the in-tree SimulatedObjectStore injects)
+    pub fn set_error_kind(&self, code: u8) {
+        self.err_kind.store(code, Ordering::Relaxed);
+    }
+
+    fn injected(&self, op: &str, idx: usize) -> IoError {
+        let (kind, name) = error_kind(self.err_kind.load(Ordering::Relaxed));
+        IoError::new(kind, format!("injected {} failure ({}) at call {}", op, name, idx))
     }
 
     fn lock(&self) -> std::sync::MutexGuard<'_, Inner> {
@@ -302,7 +335,7 @@ impl ObjectStore for TraceObjectStore {
             self.gate().await;
             let (idx, fault) = self.begin(OpKind::Put, key, None, Some(data));
             let r = match fault {
-                Some(Fault::Fail) => Err(injected("put", idx)),
+                Some(Fault::Fail) => Err(self.injected("put", idx)),
                 Some(Fault::CorruptGet(_)) | Some(Fault::TruncateGet(_)) => {
                     let mut g = self.lock();
                     let payload = g.calls[idx].data.clone().expect("put payload recorded");
@@ -315,14 +348,14 @@ impl ObjectStore for TraceObjectStore {
                     let payload = g.calls[idx].data.clone().expect("put payload recorded");
                     g.objects.insert(key.to_string(), payload);
                     g.created.insert(key.to_string(), idx as u64);
-                    Err(injected("put (after the object was stored)", idx))
+                    Err(self.injected("put (after the object was stored)", idx))
                 }
                 Some(Fault::PartialThenFail(pm)) => {
                     let n = (data.len() * pm.min(1000) as usize) / 1000;
                     let mut g = self.lock();
                     g.objects.insert(key.to_string(), Arc::new(data[..n].to_vec()));
                     g.created.insert(key.to_string(), idx as u64);
-                    Err(injected("put (after a partial write)", idx))
+                    Err(self.injected("put (after a partial write)", idx))
                 }
                 None => {
                     let mut g = self.lock();
@@ -359,7 +392,7 @@ impl ObjectStore for TraceObjectStore {
                     Ok(d[..n].to_vec())
                 }
                 (Some(Fault::Fail), _) | (Some(Fault::PartialThenFail(_)), _) | (Some(Fault::EffectThenFail), _) => {
-                    Err(injected("get", idx))
+                    Err(self.injected("get", idx))
                 }
                 (_, Some(d)) => Ok(d.as_ref().clone()),
                 (_, None) => Err(IoError::new(ErrorKind::NotFound, format!("Key not found: {}", key))),
@@ -377,7 +410,7 @@ impl ObjectStore for TraceObjectStore {
             self.gate().await;
             let (idx, fault) = self.begin(OpKind::Exists, key, None, None);
             let r = if fails(fault) {
-                Err(injected("exists", idx))
+                Err(self.injected("exists", idx))
             } else {
                 Ok(self.lock().objects.contains_key(key))
             };
@@ -397,9 +430,9 @@ impl ObjectStore for TraceObjectStore {
                 let mut g = self.lock();
                 g.objects.remove(key);
                 g.created.remove(key);
-                Err(injected("delete (after the object was removed)", idx))
+                Err(self.injected("delete (after the object was removed)", idx))
             } else if fails(fault) {
-                Err(injected("delete", idx))
+                Err(self.injected("delete", idx))
             } else {
                 let mut g = self.lock();
                 g.objects.remove(key);
@@ -420,7 +453,7 @@ impl ObjectStore for TraceObjectStore {
             self.gate().await;
             let (idx, fault) = self.begin(OpKind::List, prefix, None, None);
             let r = if fails(fault) {
-                Err(injected("list", idx))
+                Err(self.injected("list", idx))
             } else {
                 let g = self.lock();
                 let objects = g
@@ -459,7 +492,7 @@ impl ObjectStore for TraceObjectStore {
                         // copy landed, delete of the source failed
                         g.objects.insert(to.to_string(), obj);
                         g.created.insert(to.to_string(), idx as u64);
-                        Err(injected("rename (after the destination was written)", idx))
+                        Err(self.injected("rename (after the destination was written)", idx))
                     }
                     None => Err(IoError::new(
                         ErrorKind::NotFound,
@@ -467,7 +500,7 @@ impl ObjectStore for TraceObjectStore {
                     )),
                 }
             } else if fails(fault) {
-                Err(injected("rename", idx))
+                Err(self.injected("rename", idx))
             } else {
                 let mut g = self.lock();
                 match g.objects.remove(from) {
@@ -496,7 +529,7 @@ impl ObjectStore for TraceObjectStore {
             self.gate().await;
             let (idx, fault) = self.begin(OpKind::Head, key, None, None);
             let r = if fails(fault) {
-                Err(injected("head", idx))
+                Err(self.injected("head", idx))
             } else {
                 let g = self.lock();
                 match g.objects.get(key) {
